@@ -234,7 +234,7 @@ def cell_1x1(chk, tab, mm, *, variant, splus, sminus, dt, dyadic, nodelay, B, re
         x = torch.tensor([[bool(xs[b][t])] for b in range(B)])
         y = torch.tensor([[bool(ys[b][t])] for b in range(B)])
         unit = rng.choice([1.0, 0.7]) if three and not dyadic else 1.0
-        scale = rng.choice([1.0, 0.5]) if three else 1.0
+        scale = rng.choice([1.0, 0.5, -0.5]) if three else 1.0      # documented: the absolute value of the scale is used
         if three and persample:
             rs = [rng.choice(RTOK) for _ in range(B)]
             # (whole-number rewards also as an INTEGER tensor, e.g. +-1 straight from torch.randint: the scale stays fractional)
@@ -251,7 +251,7 @@ def cell_1x1(chk, tab, mm, *, variant, splus, sminus, dt, dyadic, nodelay, B, re
             mm.add(dict(sig, clause="Raised", where="step", exc=type(e).__name__),
                    {"hdr": hdr, "pre": xs, "post": ys, "steps": steps, "t": t, "error": repr(e)})
             return edges
-        P = delayadj_params(dict(syn_hp(hp, 0, 0), scale=unit * scale), tick)
+        P = delayadj_params(dict(syn_hp(hp, 0, 0), scale=unit * abs(scale)), tick)
         # admissible totals: one alternative per sample (boundary cases double)
         sums = [(0.0, 0.0)]
         nontriv = False
